@@ -32,9 +32,12 @@ impl Vm {
   ) -> ExecutionSignal { unsafe {
     let error_message = val!(self.manage_str(message));
     // Make sure we have enough space for the error message
-    // As this isn't accounted for during compilation
+    // As this isn't accounted for during compilation. Growing the stack
+    // allocates, the message is not reachable from anywhere else yet
     let mut fiber = self.fiber;
+    self.push_root(error_message);
     fiber.ensure_stack(self, 2);
+    self.pop_roots(1);
 
     // the class takes the callee slot, calling it replaces this slot with the new instance
     fiber.push(val!(error));
